@@ -206,6 +206,205 @@ def table_codes_direct(F, chk, body, kind, dname, rule):
     return table
 
 
+VALUE_TOKEN = 424242
+RESULT_TOKEN = 7000001
+
+
+def op_handlers(kind, log):
+    """interpreter handlers for every code operation of `kind`: record (family, parameter, value argument, stream argument) and
+    answer with a recognisable token, so that a dispatcher can be interpreted without interpreting the codes themselves"""
+    import ivl
+    from ivl import AI, Opaque, mk_variant
+
+    def mk(path, ent):
+        k, fam, fixed, has_param = ent
+
+        def h(it, name, args, fargs, fr, t):
+            a = list(args)
+            stream = a.pop(0) if k in ("read", "write") else None
+            value = a.pop(0) if k in ("write", "len") else None
+            param = a.pop(0) if (has_param and a) else None
+            tok = RESULT_TOKEN + len(log)
+            log.append({"fam": fam, "fixed": fixed, "has_param": has_param, "param": param, "value": value, "stream": stream, "token": tok, "call": path})
+            r = AI("u64" if k == "read" else "usize", tok, tok)
+            return mk_variant("std::result::Result", "Ok", [r]) if k in ("read", "write") else r
+        return h
+    return {path: mk(path, ent) for path, ent in cc.FAMILY.items() if ent[0] == kind}
+
+
+def semantic_dispatch(F, body, kind, make_self, env, y0, y1):
+    """interpret one dispatcher method on the parameter cell [y0, y1] -> list of cells (y0, y1, status, leaf | None, why)"""
+    import ivl
+    from ivl import AI, Agg, Ref, Frame, Opaque
+    out = []
+
+    def run(it):
+        log = []
+        it.handlers = op_handlers(kind, log)
+        it._log = log
+        sh = Frame({"path": "stream"}, {})
+        sh.locals[0] = Opaque("the stream")
+        args = [make_self(it)]
+        if kind in ("read", "write"):
+            args.append(Ref(sh, 0, ()))
+        if kind in ("write", "len"):
+            args.append(AI("u64", VALUE_TOKEN, VALUE_TOKEN))
+        return it.call_body(body, args, dict(env), 0), log
+    for c in ivl.partition(F, run, y0, y1, max_cells=400):
+        out.append(c)
+    return out
+
+
+def leaf_of_cell(c, kind):
+    """(leaf dict in the format of leaf_from_events, is the parameter the cell variable?) of an interpreted cell"""
+    from ivl import AI, Agg, Ref, Opaque
+    r, log = c.ret
+    if len(log) != 1:
+        if kind == "len" and not log and isinstance(r, AI) and r.const() == VALUE_TOKEN + 1:
+            return {"kind": "code", "fam": "unary", "param": None, "args_ok": True, "call": "value+1"}, False
+        return {"kind": "unknown", "why": "%d code operations on this cell (expected exactly one): %s" % (len(log), [e["call"].split("::")[-1] for e in log])}, False
+    e = log[0]
+    why = []
+    res = r.fields[0] if (isinstance(r, Agg) and r.variant == "Ok" and kind != "len") else r
+    if not (isinstance(res, AI) and res.const() == e["token"]):
+        why.append("the result is not the operation's result")
+    if kind in ("write", "len") and not (isinstance(e["value"], AI) and e["value"].const() == VALUE_TOKEN):
+        why.append("the operation does not receive the dispatcher's value")
+    if kind in ("read", "write"):
+        st = e["stream"]
+        for _ in range(3):
+            if isinstance(st, Ref):
+                st = st.frame.locals.get(st.local) if not st.proj else None
+        if not (isinstance(st, Opaque) and st.what == "the stream"):
+            why.append("the operation is not applied to the dispatcher's stream")
+    is_var = False
+    param = e["fixed"]
+    if e["has_param"]:
+        p = e["param"]
+        if not isinstance(p, AI):
+            return {"kind": "unknown", "why": "parameter of %s is not an integer" % e["call"]}, False
+        if p.const() is not None:
+            param = p.const()
+        elif p.aff == (1, 0) and p.dir is not None:
+            param, is_var = "P", True
+        else:
+            return {"kind": "unknown", "why": "parameter of %s is %r, neither a constant nor the code's own parameter" % (e["call"], p)}, False
+    return {"kind": "code", "fam": e["fam"], "param": param, "args_ok": not why, "why": why, "call": mir.short(e["call"])}, is_var
+
+
+def table_codes_semantic(F, chk, body, kind, dname, rule):
+    """Codes as DynamicCodeRead/Write/CodeLen, by interpretation of the method on every variant and parameter cell"""
+    import ivl
+    from ivl import AI, Agg, Ref, Frame
+    import rules_c16
+    vs = rules_c16.variants(F)
+    table = {}
+    pending = []
+    try:
+        for idx, v in sorted(vs.items()):
+            fam, field = cc.VARIANT[v["name"]]
+
+            def make_self(it, v=v, idx=idx):
+                h = Frame({"path": "code"}, {})
+                h.locals[0] = Agg("adt", rules_c16.CODES_ADT, v["name"], idx, [it.input(f["ty"] if f["ty"] in ivl.TY else "usize") for f in v["fields"]])
+                return Ref(h, 0, ())
+            env = {g: g for g in (body.get("generics") or [])}
+            ranges = [(0, 0)] if not field else [(p, p) for p in range(0, 13)] + [(13, (1 << 64) - 1)]
+            for (y0, y1) in ranges:
+                for c in semantic_dispatch(F, body, kind, make_self, env, y0, y1):
+                    if c.status != "ok":
+                        # a panicking arm (e.g. zeta with k = 0 inside the code itself cannot happen here: codes are stubbed)
+                        pending.append((v["name"], c.y0, c.y1, None, "panics: %s" % c.why))
+                        continue
+                    leaf, is_var = leaf_of_cell(c, kind)
+                    pending.append((v["name"], c.y0, c.y1, leaf, is_var))
+    except (ivl.Unsupported, ivl.Undecided, KeyError, AttributeError, IndexError, TypeError):
+        return None
+    for var, y0, y1, leaf, is_var in pending:
+        fam, field = cc.VARIANT[var]
+        if leaf is None:
+            chk.bad(rule, "%s:%s[%d..%d]" % (dname, var, y0, y1), "dispatcher %s, %s with parameter in %d..=%d: %s" % (dname, var, y0, y1, is_var))
+            continue
+        if not field:
+            key = ("arm", var, None)
+        elif y0 == y1 and not is_var:
+            key = ("arm", var, ("const", y0))
+        else:
+            key = ("arm", var, ("any", ()))
+        if field and y0 != y1 and leaf["kind"] == "code" and leaf["param"] != "P" and leaf["fam"] in cc.PARAMETRIC:
+            chk.bad(rule, "%s:%s[%d..%d]" % (dname, var, y0, y1), "dispatcher %s maps every %s with parameter in %d..=%d to the fixed code %s(%s)" % (dname, var, y0, y1, leaf["fam"], leaf["param"]))
+            continue
+        kc = key_class(key, kind == "len")
+        if leaf["kind"] != "code":
+            chk.bad(rule, "%s:%s" % (dname, fmt_key(key)), "dispatcher %s arm %s: %s" % (dname, fmt_key(key), leaf.get("why")))
+            continue
+        lp = leaf["param"]
+        if lp == "P":
+            lc = (leaf["fam"], "P")
+            if key[2] and key[2][0] == "const":
+                lc = cc.canon(leaf["fam"], key[2][1], kind == "len")
+        else:
+            lc = cc.canon(leaf["fam"], lp, kind == "len")
+        ok = (lc == kc) and leaf["args_ok"]
+        chk.expect(rule, "%s:%s" % (dname, fmt_key(key)), ok,
+                   "dispatcher %s, arm %s: names class %s but performs %s via %s%s" % (dname, fmt_key(key), kc, lc, leaf.get("call"), ("; " + "; ".join(leaf.get("why", []))) if leaf.get("why") else ""),
+                   detail={"dispatcher": dname, "arm": fmt_key(key), "expected_class": kc, "actual_class": lc, "call": leaf.get("call")},
+                   sample={"arm": fmt_key(key), "class": kc, "call": leaf.get("call")})
+        table.setdefault(key, set()).add(lc)
+    return table
+
+
+def table_constcode_semantic(F, chk, body, kind, dname, rule, ids):
+    """ConstCode<CODE> as Static*: the method interpreted for every identifier value (and the values around them)"""
+    import ivl
+    from ivl import AI, Agg, Ref, Frame, UNIT
+    table = {}
+    rejects = 0
+    results = []
+    try:
+        top = max(ids) + 8
+        for code in range(0, top + 1):
+            def make_self(it):
+                h = Frame({"path": "code"}, {})
+                h.locals[0] = UNIT
+                return Ref(h, 0, ())
+            env = {g: g for g in (body.get("generics") or [])}
+            env["CODE"] = code
+            cells = semantic_dispatch(F, body, kind, make_self, env, 0, 0)
+            results.append((code, cells[0]))
+    except (ivl.Unsupported, ivl.Undecided, KeyError, AttributeError, IndexError, TypeError):
+        return None
+    for code, c in results:
+        names = ids.get(code)
+        if c.status != "ok":
+            if names:
+                chk.bad(rule, "%s:id=%s" % (dname, code), "dispatcher %s rejects the identifier %s (%s), which code_consts defines" % (dname, code, "/".join(sorted(names))))
+            else:
+                rejects += 1
+            continue
+        if not names:
+            chk.bad(rule, "%s:id=%s" % (dname, code), "arm for identifier %s which no code_consts constant names" % code)
+            continue
+        key = ("id", code, tuple(sorted(names)))
+        classes = {cc.canon(*cc.const_name_class(n), for_len=(kind == "len")) for n in names}
+        leaf, is_var = leaf_of_cell(c, kind)
+        kname = "%s:%s" % (dname, fmt_key(key))
+        if leaf["kind"] != "code":
+            chk.bad(rule, kname, "dispatcher %s arm %s: %s" % (dname, fmt_key(key), leaf.get("why")))
+            continue
+        lp = leaf["param"]
+        lc = cc.canon(leaf["fam"], lp, kind == "len") if (lp is None or isinstance(lp, int)) else (leaf["fam"], str(lp))
+        ok = classes == {lc} and leaf["args_ok"]
+        chk.expect(rule, kname, ok,
+                   "dispatcher %s, identifier %s (%s): names class %s but performs %s via %s %s" % (dname, code, "/".join(sorted(names)), sorted(classes, key=str), lc, leaf.get("call"), leaf.get("why") or ""),
+                   detail={"dispatcher": dname, "id": code, "names": sorted(names), "expected": sorted(classes, key=str), "actual": lc},
+                   sample={"id": code, "names": sorted(names), "class": lc, "call": leaf.get("call")})
+        table[key] = {lc}
+    chk.expect(rule, dname + ":_", rejects >= 1, "dispatcher %s performs an operation for identifiers that no constant names (no rejecting default)" % dname, sample={"arm": "_", "rejected": rejects})
+    chk.expect(rule, dname + ":has-default", rejects >= 1, "dispatcher %s has no rejecting default arm" % dname)
+    return table
+
+
 def table_constcode(F, chk, body, kind, dname, rule, ids):
     paths = mir.walk(body)
     table = {}
@@ -358,7 +557,14 @@ def table_func_new_semantic(F, chk, body, kind, dname, rule):
             leaves[fn] = leaf_of_callable(F, bl[0], fn[0] == "closure", kind, fn[1]) if len(bl) == 1 and bl[0].get("blocks") else \
                 {"kind": "unknown", "why": "body of %s not available" % fn[1]}
         leaf = leaves[fn]
+        # the associated constant the function value was defined in (a closure or a function nested in its initialiser)
         cpath = fn[1].rsplit("::{closure", 1)[0] if fn[0] == "closure" else fn[1]
+        parts = cpath.split("::")
+        for n in range(len(parts), 1, -1):
+            cand = "::".join(parts[:n])
+            if any(b["kind"] == "AssocConst" for b in F.by_path.get(cand, [])):
+                cpath = cand
+                break
         cname = cpath.split("::")[-1]
         for pv in range(lo, hi + 1):
             key = ("arm", var, ("const", pv) if field else None)
@@ -498,11 +704,13 @@ def run(chk, F, tier):
         b = F.one(name=nm, trait_is=tr, self_is=SELF_CODES)
         rule = "D1.Codes." + kind
         chk.rule(rule, floor=12, doc="arms of `Codes as %s`" % tr.split("::")[-1])
-        tables[("Codes", kind)] = table_codes_direct(F, chk, b, kind, "Codes." + kind, rule)
+        tab = table_codes_semantic(F, chk, b, kind, "Codes." + kind, rule)
+        tables[("Codes", kind)] = tab if tab is not None else table_codes_direct(F, chk, b, kind, "Codes." + kind, rule)
         b = F.one(name=nm, trait_is=tr, self_is=SELF_CONST)
         rule = "D1.ConstCode." + kind
         chk.rule(rule, floor=51, doc="arms of `ConstCode<CODE> as %s`" % tr.split("::")[-1])
-        tables[("ConstCode", kind)] = table_constcode(F, chk, b, kind, "ConstCode." + kind, rule, ids)
+        tab = table_constcode_semantic(F, chk, b, kind, "ConstCode." + kind, rule, ids)
+        tables[("ConstCode", kind)] = tab if tab is not None else table_constcode(F, chk, b, kind, "ConstCode." + kind, rule, ids)
     # ---- function-pointer dispatchers
     for kind, ty in (("read", "dispatch::dynamic::FuncCodeReader::<E, CR>"), ("write", "dispatch::dynamic::FuncCodeWriter::<E, CW>"),
                      ("len", "dispatch::dynamic::FuncCodeLen"), ("read", "dispatch::factory::FactoryFuncCodeReader::<E, CRF>")):
